@@ -249,7 +249,7 @@ def hostile_templates():
       "a" * 20000, "m**2" + "**2" * 3, "9" * 4000 + "*m", "9" * 5000 + "*m", "m**" + "9" * 5000, "0." + "3" * 5000 + "*m", "-" * 3000 + "m", "(" * 3000 + "m" + ")" * 3000,
       "sqrt(" * 60 + "m" + ")" * 60, "sqrt(" * 1200 + "m" + ")" * 1200, "m" + "**(1/2)" * 3, " " * 20000 + "m", "m" + " " * 20000, "*".join("u%d" % i for i in range(1500)),
       "m" * 300, "m" + "\n" * 5000, "m*(" * 500 + "s" + ")" * 500, "[" * 300 + "]" * 300, "~" * 2000 + "m", "not " * 500 + "m",
-      "m**-" + "1" * 4400, "1/" + "7" * 4400 + "*m", "1e4400*m", "1e-4400*m", "m**1e4400", "m/1e5000")
+      "m**-" + "1" * 4400, "1/" + "7" * 4400 + "*m", "1e4400*m", "1e-4400*m", "m**1e4400", "m/1e5000", "m/1e5000,", "[1e5000]", "1e5000<m")
     return H
 
 
